@@ -127,6 +127,13 @@ fn unix_ms() -> u64 {
 /// makes collisions between concurrent writers of the same key negligible.
 pub(crate) fn new_generation() -> String {
     let ms = unix_ms();
+    #[cfg(feature = "verif")]
+    {
+        let mut b = [0u8; 4];
+        if crate::verif::rand_fill(&mut b) {
+            return format!("{ms:016x}-{:08x}", u32::from_le_bytes(b));
+        }
+    }
     let salt: u32 = rand::rng().random();
     format!("{ms:016x}-{salt:08x}")
 }
